@@ -9,6 +9,7 @@ import numpy as np
 from mc import harness, engine
 
 LR = 0.1
+LRS = {"quick": (0.1,), "thorough": (0.1, 0.01)}
 A1 = np.array([0.7, -1.3]); B2 = np.array([[0.5, -1.0], [2.0, 0.25]]); D1 = np.array([-0.4, 0.9])
 INIT = {"w1": np.array([1.5, -0.5]), "w2": np.array([[0.75, -2.0], [1.25, 0.5]]), "w3": np.array([0.3, -0.8]), "w4": np.array([2.0, -1.0])}
 DT = {"w1": np.float64, "w2": np.float32, "w3": np.float64, "w4": np.float64}
@@ -53,29 +54,30 @@ class RefOpt:
             if c["momentum"]:
                 st["buf"] = g.copy() if st["buf"] is None else c["momentum"] * st["buf"] + (1 - c["dampening"]) * g
                 g = g + c["momentum"] * st["buf"] if c["nesterov"] else st["buf"]
-            return p - LR * g, st
+            return p - c.get("lr", LR) * g, st
         b1, b2 = c["betas"]; st["t"] += 1; t = st["t"]
-        if c["opt"] == "AdamW": p = p - LR * c["weight_decay"] * p
+        lr = c.get("lr", LR)
+        if c["opt"] == "AdamW": p = p - lr * c["weight_decay"] * p
         elif c["weight_decay"]: g = g + c["weight_decay"] * p
         st["m"] = b1 * st["m"] + (1 - b1) * g
         st["v"] = b2 * st["v"] + (1 - b2) * g * g
         mh = st["m"] / (1 - b1 ** t); vh = st["v"] / (1 - b2 ** t)
-        return p - LR * mh / (np.sqrt(vh) + c["eps"]), st
+        return p - lr * mh / (np.sqrt(vh) + c["eps"]), st
 
 def make_lib(cfg):
     sg = harness.load()
     P = {k: sg.nn.Parameter(sg.Tensor(INIT[k].astype(DT[k]), requires_grad=True)) for k in INIT}
     P["w3"].requires_grad = False
     plist = [P[k] for k in OPT_PARAMS]
-    kw = {k: (tuple(v) if k == "betas" else v) for k, v in cfg.items() if k != "opt"}
-    opt = getattr(sg.optim, cfg["opt"])(plist, lr=LR, **kw)
+    kw = {k: (tuple(v) if k == "betas" else v) for k, v in cfg.items() if k not in ("opt", "lr")}
+    opt = getattr(sg.optim, cfg["opt"])(plist, lr=cfg.get("lr", LR), **kw)
     return sg, P, opt
 
 def make_torch(cfg):
     t = harness.torch()
     TP = {k: t.tensor(INIT[k].astype(DT[k]).astype(np.float64), requires_grad=(k != "w3")) for k in INIT}
-    kw = {k: (tuple(v) if k == "betas" else v) for k, v in cfg.items() if k != "opt"}
-    opt = getattr(t.optim, cfg["opt"])([TP[k] for k in OPT_PARAMS], lr=LR, **kw)
+    kw = {k: (tuple(v) if k == "betas" else v) for k, v in cfg.items() if k not in ("opt", "lr")}
+    opt = getattr(t.optim, cfg["opt"])([TP[k] for k in OPT_PARAMS], lr=cfg.get("lr", LR), **kw)
     return t, TP, opt
 
 def lib_loss(sg, P, which):
@@ -197,7 +199,7 @@ def replay(case):
 
 def run(tier, seed):
     depth = 4 if tier == "quick" else 6
-    cfgs = configs()
+    cfgs = [dict(c, lr=lr) for c in configs() for lr in LRS[tier]]
     cases = [{"cfg": c, "history": "".join(h)} for c in cfgs for h in itertools.product(EVENTS, repeat=depth)]
     r = engine.run_cases(cases, judge)
     # keep, per (kind, cfg), only the shortest violating prefix
